@@ -70,7 +70,16 @@ def is_time(s: str) -> Optional[time]:
         d2 = dateutil.parser.parse(s, default=_check_values_time[1])
     except OverflowError:
         return None
-    return None if d1 == d2 else d1.time()
+    if d1 == d2:
+        return None
+    # Keep the UTC offset of the string (datetime.time() drops it)
+    t = d1.timetz()
+    try:
+        t.utcoffset()
+    except ValueError:
+        # Offset of 24 hours or more
+        return None
+    return t
 
 
 class IsoDateString(StringSerializable, date):
